@@ -45,6 +45,8 @@ func genTStep(rt *rapid.T, nc int, hostile bool) TStep {
 		st.Cuts = rapid.SampledFrom([]int{1, 1, 2, 3, 7, 1000}).Draw(rt, "cuts")
 		if rapid.IntRange(0, 5).Draw(rt, "onControl") == 0 {
 			st.Side = "control"
+		} else if rapid.IntRange(0, 9).Draw(rt, "acceptFault") == 0 {
+			st.Side = "accept-fault"
 		}
 
 		return st
